@@ -282,6 +282,10 @@ func SimpleValue(t *Token, r *Rng) string {
 		return string(b)
 	}
 	cands := []string{gen(digits, r.Range(1, 3)), gen(letters, r.Range(1, 3)), gen(digits+letters, r.Range(2, 4))}
+	if strings.Contains(t.Rule, "|") { // alternation of literal words over the value alphabet
+		alts := strings.Split(t.Rule, "|")
+		cands = append(cands, alts[r.Intn(len(alts))])
+	}
 	shuffle(r, cands)
 	for _, c := range cands {
 		if t.Accepts(c) {
